@@ -14,12 +14,21 @@ structure Hist where
   surfaced : List Nat := []
   /-- requests refused with H3_REQUEST_REJECTED. -/
   rejected : List Nat := []
+  /-- request streams the peer has opened. -/
+  opened : List Nat := []
+  /-- requests the application is done with (its last handle is gone). -/
+  done : List Nat := []
+  /-- the count of the `shutdown(n)` call being answered. -/
+  call : Option Nat := none
 deriving Repr, DecidableEq
 
 def Hist.push (h : Hist) : Obs → Hist
   | .goaway g => { h with sent := g :: h.sent }
   | .surfaced i => { h with surfaced := i :: h.surfaced }
   | .rejected i => { h with rejected := i :: h.rejected }
+  | .arrived i => { h with opened := i :: h.opened }
+  | .completed i => { h with done := i :: h.done }
+  | .shutdownCalled n => { h with call := some n }
   | _ => h
 
 /-- RFC 9000 §2.1: a client-initiated bidirectional stream ID (62 bit). -/
@@ -58,6 +67,52 @@ def okObs (strict : Bool) (h : Hist) : Obs → Bool
 def valid (strict : Bool) : Hist → List Obs → Bool
   | _, [] => true
   | h, o :: r => okObs strict h o && valid strict (h.push o) r
+
+/-! ### the queue rules (second audit: D-08b)
+
+What the per-observation clauses above cannot see: a stream that never gets an outcome, an outcome
+given twice, a `shutdown` that answers `Ok` without a GOAWAY in force.  Still over the observable
+history only (plus the peer's `arrived`, the application's `completed` / `shutdownCalled`). -/
+
+/-- stream `i` has had its outcome: shown to the application or refused. -/
+def disposed (h : Hist) (i : Nat) : Bool := h.surfaced.contains i || h.rejected.contains i
+
+/-- the largest request shown to the application so far. -/
+def largestSurfaced (h : Hist) : Option Nat := h.surfaced.foldl (fun m i => some (match m with | some a => max a i | none => i)) none
+
+/-- `shutdown(n)`: "accepting `n` potentially still in-flight" requests — at most `n` more than the
+    largest one shown so far (the first `n` when none was shown); the identifier space ends at 2^62 − 4. -/
+def shutdownBound (h : Hist) (n : Nat) : Nat :=
+  min (match largestSurfaced h with
+       | some L => L + 4 * (n + 1)
+       | none => 4 * n) (2^62 - 4)
+
+def okQueue (h : Hist) : Obs → Bool
+  -- at most one outcome per stream
+  | .surfaced i => !disposed h i
+  | .rejected i => !disposed h i
+  -- under the documented pattern *call `accept` until `None`* (R-08) `None` ends the server's look at
+  -- incoming streams.  The text gives every request one of two fates — at or above the last identifier
+  -- sent: refused with H3_REQUEST_REJECTED; below it: served — so a stream the peer has opened that has
+  -- been neither shown nor refused when `None` is answered is a violation whichever side of the line
+  -- it is on (the last GOAWAY of `accept` may move the line, it cannot excuse the stream).  And `None`
+  -- is the end of the connection's work: no request shown earlier is still in progress
+  | .acceptNone => h.opened.all (disposed h) && h.surfaced.all (fun i => h.done.contains i)
+  -- "once a server has begun graceful shutdown": a `shutdown(n)` that answers `Ok` leaves a GOAWAY in
+  -- force whose identifier admits at most `n` more requests (a lower identifier than the one in force
+  -- has to be written)
+  | .shutdownOk =>
+    match lastSent h with
+    | none => false
+    | some g =>
+      match h.call with
+      | some n => decide (g ≤ shutdownBound h n)
+      | none => true
+  | _ => true
+
+def validQ : Hist → List Obs → Bool
+  | _, [] => true
+  | h, o :: r => okQueue h o && validQ (h.push o) r
 
 /-- the identifiers of the arrivals an observation sequence disposes of, in order. -/
 def outcomes : List Obs → List Nat
@@ -123,6 +178,14 @@ def feed (st : List Nat × List Nat) : H3.Goaway.Ev → List Nat × List Nat
   | .recvGoaway id => (st.1, st.2 ++ [id])
   | .pollClose => (st.1 ++ st.2, [])
   | _ => st
+
+/-- "A client that has processed a GOAWAY starts no new request", for calls that wait for stream
+    credit: what a client history may show is decided when the call gets its stream — `true` = the
+    request may be written, `false` = the call must answer `RemoteClosing` and nothing may be written.
+    No opinion (`none`) after the connection error. -/
+def mayStart (processedIds : List Nat) : Option Bool :=
+  let c := clientAfter processedIds
+  if c.stopped then some false else if c.err then none else some true
 
 def processed (evs : List H3.Goaway.Ev) : List Nat := (evs.foldl feed ([], [])).1
 
